@@ -186,6 +186,16 @@ func main() {
 	for i := 0; i < nUS/2; i++ {
 		runOne(genMerge(r))
 	}
+	for i := 0; i < nUS/5; i++ {
+		kind := "art"
+		if i%3 == 2 {
+			kind = "rbt"
+		} else if i%10 == 9 {
+			kind = "txn"
+		}
+		runOne(genScanWhileWriting(r, kind))
+		gstats["scan-while-writing-programs"]++
+	}
 	nPipe := nTxn * 2
 	for i := 0; i < nPipe; i++ {
 		runOne(genPipeProgram(r, nops))
